@@ -16,6 +16,8 @@ pub enum Ev {
     Key { code: u16, down: bool },
     /// an event kind that cannot be sent
     Bitmap,
+    /// the same through the lenient entry point (try_write): still refused
+    BitmapLenient,
     /// the server sends something in between: 0 fast-path bitmap, 1 set-error-info, 2 unknown data PDU
     Server(u8),
 }
@@ -26,6 +28,13 @@ pub struct Case {
     pub user_id: u16,
     pub share_id: u32,
     pub block: &'static str,
+    /// every event goes through try_write instead of write
+    pub lenient: bool,
+    /// capability list the server announced: 0 Windows capture, 1 minimal, 2 input capability without the scancode
+    /// flag, 3 no input capability, 4 with unknown sets
+    pub caps: u8,
+    /// the transport accepts at most this many bytes per write call (0: everything)
+    pub write_cap: usize,
 }
 
 pub struct C11 {
@@ -63,10 +72,10 @@ impl Prop for C11 {
         let (uid, sid) = (1007u16, 0x000103EAu32);
         // A: every x, every y, every scancode (batches of 64 events on one connection: order is checked too)
         for base in (0..65536u32).step_by(64) {
-            cs.push(Case { events: (0..64).map(|i| Ev::Ptr { x: (base + i) as u16, y: 5, button: 1, down: true }).collect(), user_id: uid, share_id: sid, block: "all-x" });
-            cs.push(Case { events: (0..64).map(|i| Ev::Ptr { x: 7, y: (base + i) as u16, button: 0, down: false }).collect(), user_id: uid, share_id: sid, block: "all-y" });
-            cs.push(Case { events: (0..64).map(|i| Ev::Key { code: (base + i) as u16, down: i % 2 == 0 }).collect(), user_id: uid, share_id: sid, block: "all-scancodes" });
-            cs.push(Case { events: (0..64).map(|i| Ev::Key { code: (base + i) as u16, down: i % 2 == 1 }).collect(), user_id: uid, share_id: sid, block: "all-scancodes" });
+            cs.push(Case { events: (0..64).map(|i| Ev::Ptr { x: (base + i) as u16, y: 5, button: 1, down: true }).collect(), user_id: uid, share_id: sid, block: "all-x", lenient: false, caps: 0, write_cap: 0 });
+            cs.push(Case { events: (0..64).map(|i| Ev::Ptr { x: 7, y: (base + i) as u16, button: 0, down: false }).collect(), user_id: uid, share_id: sid, block: "all-y", lenient: false, caps: 0, write_cap: 0 });
+            cs.push(Case { events: (0..64).map(|i| Ev::Key { code: (base + i) as u16, down: i % 2 == 0 }).collect(), user_id: uid, share_id: sid, block: "all-scancodes", lenient: false, caps: 0, write_cap: 0 });
+            cs.push(Case { events: (0..64).map(|i| Ev::Key { code: (base + i) as u16, down: i % 2 == 1 }).collect(), user_id: uid, share_id: sid, block: "all-scancodes", lenient: false, caps: 0, write_cap: 0 });
         }
         // B: buttons x press state x boundary coordinates
         let b = [0u16, 1, 0x7FFF, 0x8000, 0xFFFF];
@@ -74,7 +83,7 @@ impl Prop for C11 {
             for down in [false, true] {
                 for x in b {
                     for y in b {
-                        cs.push(Case { events: vec![Ev::Ptr { x, y, button: btn, down }], user_id: uid, share_id: sid, block: "buttons" });
+                        cs.push(Case { events: vec![Ev::Ptr { x, y, button: btn, down }], user_id: uid, share_id: sid, block: "buttons", lenient: false, caps: 0, write_cap: 0 });
                     }
                 }
             }
@@ -108,20 +117,33 @@ impl Prop for C11 {
         let mut seqs = vec![];
         rec(&alpha, depth, &mut vec![], &mut seqs);
         for s in &seqs {
-            cs.push(Case { events: s.clone(), user_id: uid, share_id: sid, block: "sequences" });
+            cs.push(Case { events: s.clone(), user_id: uid, share_id: sid, block: "sequences", lenient: false, caps: 0, write_cap: 0 });
             for pos in 0..=s.len() {
                 for k in 0..3u8 {
                     let mut e = s.clone();
                     e.insert(pos, Ev::Server(k));
-                    cs.push(Case { events: e, user_id: uid, share_id: sid, block: "sequences-with-server-traffic" });
+                    cs.push(Case { events: e, user_id: uid, share_id: sid, block: "sequences-with-server-traffic", lenient: false, caps: 0, write_cap: 0 });
                 }
             }
         }
         // D: identifiers assigned by the server
         for user_id in [1001u16, 1002, 1004, 1007, 0x8000, 65534, 65535] {
             for share_id in [0u32, 1, 0x000103EA, 0xFFFFFFFF] {
-                cs.push(Case { events: vec![Ev::Ptr { x: 1, y: 2, button: 1, down: true }, Ev::Key { code: 3, down: false }], user_id, share_id, block: "identifiers" });
+                cs.push(Case { events: vec![Ev::Ptr { x: 1, y: 2, button: 1, down: true }, Ev::Key { code: 3, down: false }], user_id, share_id, block: "identifiers", lenient: false, caps: 0, write_cap: 0 });
             }
+        }
+        // E: the lenient entry point, the server's capability list and a short-writing transport do not change anything
+        let probe = vec![Ev::Ptr { x: 10, y: 20, button: 1, down: true }, Ev::Key { code: 0x1E, down: true }, Ev::Bitmap, Ev::BitmapLenient, Ev::Key { code: 0xE048, down: false }, Ev::Ptr { x: 10, y: 20, button: 0, down: false }, Ev::Ptr { x: 10, y: 20, button: 0, down: false }];
+        for lenient in [false, true] {
+            for caps in 0..5u8 {
+                for write_cap in [0usize, 1, 2, 7, 20, 47, 48] {
+                    cs.push(Case { events: probe.clone(), user_id: uid, share_id: sid, block: "entry-point-x-capabilities-x-transport", lenient, caps, write_cap });
+                }
+            }
+        }
+        for s in seqs.iter().filter(|s| s.len() <= 2) {
+            cs.push(Case { events: s.clone(), user_id: uid, share_id: sid, block: "sequences-lenient", lenient: true, caps: 0, write_cap: 0 });
+            cs.push(Case { events: s.clone(), user_id: uid, share_id: sid, block: "sequences-no-scancode-flag", lenient: false, caps: 2, write_cap: 3 });
         }
         self.cases = cs;
         Ok(())
@@ -134,7 +156,7 @@ impl Prop for C11 {
         json!({"idx": idx, "block": c.block, "user_id": c.user_id, "share_id": c.share_id, "n_events": c.events.len(), "events": c.events.iter().take(8).collect::<Vec<_>>()})
     }
     fn rule(&self) -> String {
-        "cases = event sequences submitted through RdpClient::write on a really activated client (raw stack), decoded by the reference peer. [all-x/all-y/all-scancodes] every value 0..65535 of x, y and scancode (batches of 64 events, order checked); [buttons] 4 buttons x 2 press states x 5x5 boundary coordinates; [sequences] every sequence of <=3 (<=4) events over a 9-letter alphabet incl. an unsendable kind, alone and with one server PDU (fast-path bitmap, set-error-info, unknown data PDU) interleaved at every position; [identifiers] server-assigned user ids x share ids. Non-trivial: >= 2 events or non-default identifiers.".into()
+        "cases = event sequences submitted through RdpClient::write on a really activated client (raw stack), decoded by the reference peer. [all-x/all-y/all-scancodes] every value 0..65535 of x, y and scancode (batches of 64 events, order checked); [buttons] 4 buttons x 2 press states x 5x5 boundary coordinates; [sequences] every sequence of <=3 (<=4) events over a 9-letter alphabet incl. an unsendable kind, alone and with one server PDU (fast-path bitmap, set-error-info, unknown data PDU) interleaved at every position; [identifiers] server-assigned user ids x share ids; [entry-point-x-capabilities-x-transport] a probe sequence (incl. the unsendable kind through write and try_write, a repeated pointer move) through write / try_write x 5 server capability lists (Windows, minimal, input capability without the scancode flag, no input capability, unknown sets) x a transport accepting 1..48 bytes per write; every sequence of <=2 events through try_write, and with the no-scancode-flag list on a 3-byte transport. Non-trivial: >= 2 events or non-default identifiers.".into()
     }
     fn assumptions(&self) -> Vec<String> {
         vec![
@@ -144,11 +166,16 @@ impl Prop for C11 {
     }
     fn run_case(&mut self, idx: u64) -> Outcome {
         let c = self.cases[idx as usize].clone();
-        let p = ServerParams { user_id: c.user_id, share_id: c.share_id, ..Default::default() };
+        let caps = [crate::peer::CapsKind::WindowsCapture, crate::peer::CapsKind::Minimal, crate::peer::CapsKind::InputWithoutScancodes, crate::peer::CapsKind::NoInputCapability, crate::peer::CapsKind::WithUnknown][c.caps as usize % 5].clone();
+        let p = ServerParams { user_id: c.user_id, share_id: c.share_id, caps, ..Default::default() };
         let mut conn = match raw_active(&ClientCfg::default(), p) {
             Ok(c) => c,
             Err(e) => return Outcome::fail("setup", "honest-activation-failed", e),
         };
+        if c.write_cap > 0 {
+            conn.sh.borrow_mut().write_plan = crate::memlink::WritePlan::Cap(c.write_cap);
+        }
+        let lenient = c.lenient;
         let client = conn.client.as_mut().unwrap();
         let start_log = conn.peer.borrow().srv.log.len();
         let mut expected: Vec<InputEvent> = vec![];
@@ -157,7 +184,8 @@ impl Prop for C11 {
             let before = conn.sh.borrow().from_client.len();
             match e {
                 Ev::Ptr { x, y, button: b, down } => {
-                    let r = client.write(RdpEvent::Pointer(PointerEvent { x: *x, y: *y, button: button(*b), down: *down }));
+                    let ev = RdpEvent::Pointer(PointerEvent { x: *x, y: *y, button: button(*b), down: *down });
+                    let r = if lenient { client.try_write(ev) } else { client.write(ev) };
                     if let Err(err) = r {
                         return Outcome::fail("mismatch", "pointer-event-refused-while-active", format!("event {}: {:?}", i, err));
                     }
@@ -173,13 +201,15 @@ impl Prop for C11 {
                     expected.push(InputEvent::Mouse { time: 0, flags: base | if *down { 0x8000 } else { 0 }, x: *x, y: *y });
                 }
                 Ev::Key { code, down } => {
-                    if let Err(err) = client.write(RdpEvent::Key(KeyboardEvent { code: *code, down: *down })) {
+                    let ev = RdpEvent::Key(KeyboardEvent { code: *code, down: *down });
+                    if let Err(err) = if lenient { client.try_write(ev) } else { client.write(ev) } {
                         return Outcome::fail("mismatch", "key-event-refused-while-active", format!("event {}: {:?}", i, err));
                     }
                     expected.push(InputEvent::Scancode { time: 0, flags: if *down { 0 } else { 0x8000 }, code: *code, pad: 0 });
                 }
-                Ev::Bitmap => {
-                    let r = client.write(RdpEvent::Bitmap(BitmapEvent { dest_left: 0, dest_top: 0, dest_right: 0, dest_bottom: 0, width: 1, height: 1, bpp: 16, is_compress: false, data: vec![0, 0] }));
+                Ev::Bitmap | Ev::BitmapLenient => {
+                    let ev = RdpEvent::Bitmap(BitmapEvent { dest_left: 0, dest_top: 0, dest_right: 0, dest_bottom: 0, width: 1, height: 1, bpp: 16, is_compress: false, data: vec![0, 0] });
+                    let r = if lenient || matches!(e, Ev::BitmapLenient) { client.try_write(ev) } else { client.write(ev) };
                     if r.is_ok() {
                         return Outcome::fail("mismatch", "unsendable-event-accepted", format!("event {}", i));
                     }
